@@ -47,6 +47,12 @@ CHECKS = {
     "C18": ("probe", "fault_enumeration", "runtime fault injection: a panic at every probe position, catch_unwind at the caller, later-step monitor",
             "One run per (program, macro, position) with a panic injected in a value, operand expression, callback, capture, handler expression or handler call; the caller must observe a panic, no later-step event may exist, and the evaluation must return (bounded progress).",
             "Payload preservation is not required by the property.", "3/C18"),
+    "C01": ("zoo", "exploration", "runtime differential monitoring: macro invocation vs the documented method chain compiled into the same binary (value + callback trace equality)",
+            "Type-directed chains over Option/Result/Iterator/plain worlds (also inside async macros), coverage-forced over every (world, operator, operand spelling) transition, wrappers and sampled operator pairs, then random walks; every chain runs on all input shapes; value and per-branch callback traces must equal the plain-Rust twin; a twin whose reference compiles but whose macro form does not is a violation.",
+            "Independent of join_impl; depends on rustc/std/futures for the meaning of the methods. Future/Stream worlds: see DESIGN.md section 3/C01 for what is covered.", "3/C01"),
+    "C02": ("zoo", "exploration", "runtime differential monitoring: wrapped chains vs hand-nested closures (value + callback trace equality)",
+            "The zoo twins that contain `>>>`: all ten wrapper operators, nesting depth 1-3, empty inner chains, inner block captures (sync kinds), explicit vs implicit closing, operators after `<<<`.",
+            "Same trusted base as C01.", "3/C02"),
     "C14": ("lab", "exploration", "runtime monitoring of the real parser (join_impl linked as a library): structure round trip through public accessors",
             "Random and systematically enumerated chain structures are rendered to DSL text, parsed by the real parser, and the parsed structure (operators, `~`, `>>>`/`<<<`, operand token strings, branch boundaries, `let` names, handler, options) must equal the generated one. All ordered operator pairs x flags, every operator x every adversarial operand, random chains up to 30 actions. Operands are admitted by an independent splitter so the oracle never demands more than the property's side condition.",
             "Site E1 uses proc_macro2's fallback lexer; the zoo corpus runs the same renderer through rustc.", "3/C14"),
@@ -93,6 +99,8 @@ m = {
     "engines": [
         {"name": "probe", "path": "vrt/ + gen/probe.py", "serves_properties": sorted(k for k, v in CHECKS.items() if v[0] == "probe"),
          "kind_free_text": "generated probe programs over Result<Val,Fail> compiled against /repo, run under enumerated plans and schedules; reference model + monitors in vrt"},
+        {"name": "zoo", "path": "vrt/src/zoo.rs + gen/zoo.py", "serves_properties": ["C01", "C02"],
+         "kind_free_text": "twin functions (macro vs plain method chain with identical operand text) compiled against /repo and compared at run time"},
         {"name": "lab", "path": "lab/ + gen/dsl.py", "serves_properties": ["C10", "C13", "C14", "C15", "C16", "C20"],
          "kind_free_text": "site E1 harness linking join_impl as a library (round trip, totality, determinism, marker counting, option orders) plus rustc reject / futures_crate_path corpora"},
     ],
